@@ -1,6 +1,7 @@
 """
 This file is concerned with the extraction of objects given a path.
 """
+import datetime
 import importlib
 import inspect
 import logging
@@ -56,6 +57,15 @@ def _is_authorized_type(tpe: Type[Any], gctx: EvalMainContext) -> bool:
     if tpe is None or tpe is type(None):
         return True
     if tpe in (int, float, bool, str, bytes, PurePosixPath, FunctionType, ModuleType):
+        return True
+    # Dates and times are hashed by value like the other primitive types (see dds_hash)
+    if tpe in (
+        datetime.datetime,
+        datetime.date,
+        datetime.time,
+        datetime.timedelta,
+        datetime.timezone,
+    ):
         return True
     # Some specific structural types are more complex and can be user-controlled.
     if get_option(accept_list_option) and tpe in (list, tuple):
